@@ -112,9 +112,15 @@ fn verify(st: &mut RealState, case: &mut Case, rng: &mut Rng, rep: &mut Report, 
         // model tie (exact integers): the fold model, the rose-level recursion, the recursive algorithm
         let (a, _) = st.exec("nop");
         let _ = a;
-        case.steps.push((Step { real_cmd: "dm\tfast".into(), model_cmd: format!("dm\tfast\t{UNIT}"), real_ans: fast.clone() }, Cmp::OkExact));
-        case.steps.push((Step { real_cmd: "dm\tfast".into(), model_cmd: format!("dm\trose\t{UNIT}"), real_ans: fast.clone() }, Cmp::OkExact));
-        case.steps.push((Step { real_cmd: "dm\trec".into(), model_cmd: "dm\trec".into(), real_ans: rec.clone() }, Cmp::OkExact));
+        // with a leaf name carried by two leaves (an internal node spelled like a leaf became a tip after an edit) the
+        // order of the two rows is not determined by the tree: outside the property's domain, only the outcome class is compared
+        let cmp = || if uniq { Cmp::OkExact } else { Cmp::Class };
+        if !uniq {
+            rep.count("duplicate_leaf_names_after_edit:class_only");
+        }
+        case.steps.push((Step { real_cmd: "dm\tfast".into(), model_cmd: format!("dm\tfast\t{UNIT}"), real_ans: fast.clone() }, cmp()));
+        case.steps.push((Step { real_cmd: "dm\tfast".into(), model_cmd: format!("dm\trose\t{UNIT}"), real_ans: fast.clone() }, cmp()));
+        case.steps.push((Step { real_cmd: "dm\trec".into(), model_cmd: "dm\trec".into(), real_ans: rec.clone() }, cmp()));
     }
     let ctx = format!("{start}\ndm\tfast");
     if fast == "panic" || rec == "panic" {
